@@ -70,7 +70,7 @@ PROPS = {
         "design_ref": "DESIGN.md §5 C19",
         "technique": "deterministic simulation: Publisher.Publish on a simulated disk under a seeded scheduler; file history compared across schedules, jobs, map orders and process histories; writer failure injected at every k-th file",
         "level_text": ("For every generated document the file-writer fault position is enumerated completely (WriteFile call k fails for every k of the fault-free run, "
-                       "transient and sticky, with 1 and with several workers) and Publish must stop and return an error; documents, options, schedules, map orders and "
+                       "transient and sticky, with 1 and with several workers; in a quarter of the cases also: the device fills up after 0, 1, a few or many bytes of the k-th page, for every k) and Publish must stop and return an error; documents, options, schedules, map orders and "
                        "process histories are sampled by seed. The recorded (name, bytes) history of the simulated disk is checked for confinement, collisions, link closure "
                        "and byte-identity across schedules x jobs x map order x earlier publishes x a fresh process, and the race detector runs under the serialised schedule."),
         "level_note": ("Trusts: instrumenter (upstream unit tests pass on the instrumented copy), Go race detector, the simulated disk (stub for core.FileWriter; the real "
@@ -102,7 +102,7 @@ PROPS = {
         "design_ref": "DESIGN.md §5 C17",
         "technique": "deterministic simulation: publish to a simulated disk under seeded schedules, jobs, simulated clock (age rule) and process history; marker search and two-run non-interference over the recorded file history",
         "level_text": ("Seeded exploration of documents in which every private string is a unique marker token, with living people in every role, x visibility {hide, placeholder} x "
-                       "page groups x jobs x schedules x simulated 'today' x earlier publishes in the same process. Oracles over the simulated disk's file history: no private name "
+                       "page groups x jobs x schedules x simulated 'today' x earlier publishes in the same process (half of which end early on a disk that fills up in the middle of a page). Oracles over the simulated disk's file history: no private name "
                        "token of a living individual in any file name or content; every non-living individual keeps a page; in hide mode publishing D and D' (living people's names, "
                        "dates, places replaced) gives byte-identical sites although the two runs use different schedules and jobs."),
         "level_note": ("Who is living is decided by the oracle from the generated facts (death event, or born 5-80 / >=120 years before the simulated today), never by calling IsLiving. "
@@ -157,7 +157,8 @@ PROPS = {
         "level_text": ("For every generated document (built through the public API over the legal alphabet) the writer-fault position is enumerated (every k for documents up to 48 writes; beyond that the first 16, the last 8 and every fifth): the k-th Write fails "
                        "(transient, sticky, short write) for every k, and Encode must either fail or have written text that still decodes to the identical document. Fault-free "
                        "round trips run under several reader delivery plans (whole, 1-byte, random chunks, zero-byte reads, data+EOF) and through a bounded pipe whose two ends are "
-                       "goroutines scheduled by the seeded scheduler. Documents are sampled by seed."),
+                       "goroutines scheduled by the seeded scheduler, alone or next to up to two more encoder|pipe|decoder chains with documents of their own; for texts up to 600 bytes the reader fails "
+                       "once (or for good) at every offset of the encoder's output and Decode must return an error; streams that were refused are decoded before the round trip in a quarter of the cases. Documents are sampled by seed."),
         "level_note": "The forest generator is a sampled workload (no exhaustive enumeration of small forests: that would be another technique). Trusts the simulated reader/writer/pipe stubs.",
         "rule": ("cases = seeded node forests (all specialised tags, custom and numeric tags, values that look like pointers/levels/tags, duplicate siblings, nested pointers, "
                  "family-role nodes, depth up to 99, BOM on/off); one evaluation = one decode under a delivery plan, one encode under a write fault, or one simulated pipe run. "
@@ -230,7 +231,8 @@ PROPS = {
                        "by pointer, add children, delete and replace root records) interleaved with plain reads that warm single caches and with read-only operations (Warnings, String, "
                        "Compare and DiffPage with 1-8 jobs and Publish with 1-8 jobs inside the seeded scheduler, SurroundingSimilarity, CompareNodes+Sort, DeepCopy/ShallowCopy/Filter into "
                        "another document, MergeNodes and MergeDocumentsAndIndividuals into a third document, queries). After every step every derived view of every session, normalised to tree positions, must equal the same view of a fresh decode "
-                       "of the session's current text; read-only operations must leave text and views byte-identical; a second session shares the process-global caches."),
+                       "of the session's current text; read-only operations must leave text and views byte-identical; a second session shares the process-global caches. One case in six starts with the deletion of somebody's husband or wife "
+                       "(or of every husband) followed at once by a read by several goroutines in which one goroutine at a time is stalled at the first visit of a lookup site (a slow thread)."),
         "level_note": ("Exhaustive enumeration of short histories is not done (seeded sampling only). In one case out of four the views are only compared at the end, so edits also "
                        "meet cold caches; a failing end state is then attributed by replaying prefixes. Histories that leave the decodable space or create duplicate pointers end "
                        "without a verdict (counted). The model decode itself resets the process-wide children-by-tag cache; the live views are re-read afterwards to re-warm it."),
